@@ -15,6 +15,7 @@ R6  the attribute-name parser: every array access is within bounds.
 """
 from .. import bounds as B
 from .. import cfg as C
+from .. import discr as D
 from ..model import Program
 from ..report import Broken
 
@@ -154,6 +155,63 @@ def run(ctx):
             r6.samples.append({"obligation": "%s: %s <= %s" % (k, sz, cap), "discharged_by": "difference facts on the path"})
     if eng6.stats["cursor_lemma"]:
         ctx.assume("strlen(s + k) <= strlen(s): a parse cursor stays inside its string (used %d times)" % eng6.stats["cursor_lemma"])
+
+
+    # ------------------------------------------------------------ R8
+    r8 = ctx.rule("C10.R8", "no attribute name reaches an aborting accessor: tag-asserting accessors are called only under the matching tag test")
+    dz = D.Discr(P, eng)
+    scope = [f for f in P.fns_in("libxcm/core/attr_tree.c")
+             if f.name in ("node_lookup", "attr_tree_set_value", "attr_tree_get_value", "attr_tree_get_list_len",
+                           "visit_value", "visit_dict", "visit_list", "visit_node", "foreach_dict_key", "foreach_list_index",
+                           "attr_tree_get_all")]
+    for f in scope:
+        r8.instance(f.name)
+    r8.floor(11, "name-driven functions of attr_tree.c")
+    npre = sum(len(dz.pre(g)) for g in P.fns_in("libxcm/core/attr_node.c") + P.fns_in("libxcm/core/attr_path.c"))
+    if npre < 12:
+        raise Broken("C10.R8: only %d tag-asserting accessors recognised (expected >= 12)" % npre)
+    n = dz.check_scope(scope, r8)
+    if n < 10:
+        raise Broken("C10.R8: only %d guarded accessor calls found in scope" % n)
+    r8.note("%d tag preconditions of accessors; %d accessor calls checked" % (npre, n))
+
+    # ------------------------------------------------------------ R9
+    r9 = ctx.rule("C10.R9", "a TCP option value the kernel interface cannot represent is rejected before it is stored (no unguarded narrowing)")
+    eng9 = B.Engine(P)
+    eng9.narrow_scope = lambda f: f.file.endswith("tcp/tcp_attr.c")
+    IM = 2147483647
+    # invariants of struct tcp_opts: what effectuate_* can pass to setsockopt without loss
+    scale = {}
+    for f in P.fns_in("tcp/tcp_attr.c"):
+        if f.name.startswith("effectuate_") and len(f.params) == 2 and f.params[1].get("t") == "int64_t":
+            k = 1
+            for nid, m in f.nodes.items():
+                if m["k"] == "bin" and m["op"] == "*":
+                    cv = C.const_of(f, m["r"])
+                    if cv:
+                        k = cv
+            scale[f.name[len("effectuate_"):]] = k
+    rec = P.record("tcp_opts")
+    for fld in rec["fields"]:
+        if fld["name"] in scale:
+            eng9.invariants[("tcp_opts", fld["name"])] = (1, IM // scale[fld["name"]])
+            r9.instance("tcp_opts.%s in [1, %d]" % (fld["name"], IM // scale[fld["name"]]))
+    r9.floor(4, "scaled TCP options")
+    roots9 = [f for f in P.fns_in("tcp/tcp_attr.c") if not f.static and not f.name.startswith("tcp_get_")]
+    report_bounds(r9, eng9, roots9, "TCP option")
+    for f, (rq, unp) in eng9.memo.items():
+        if f.file.endswith("tcp/tcp_attr.c"):
+            for u in unp:
+                if "narrowing" in u["key"] or "invariant" in u["key"]:
+                    r9.violation(u["key"], "value range not established: %s <= %s (in %s)" % (u["size"], u["cap"], f.name), loc=u["loc"])
+    npr = sum(1 for k, how, sz, cap in eng9.sink_log if how == "proved" and ("narrowing" in k or "invariant" in k))
+    r9.obligations += npr
+    r9.discharged += npr
+    for k, how, sz, cap in eng9.sink_log:
+        if how == "proved" and "narrowing" in k and len(r9.samples) < 4:
+            r9.samples.append({"obligation": "%s: %s <= %s" % (k, sz, cap), "discharged_by": "range facts / record invariant"})
+    if npr < 8:
+        raise Broken("C10.R9: only %d narrowing/invariant obligations found" % npr)
 
 
 # ---------------------------------------------------------------------------
